@@ -847,6 +847,26 @@ func (e *contractEnv) newValue(fn *ssa.Function, v ssa.Value, depth int) Contrac
 			// embedded codec's New called statically
 			return e.NewContract(callee)
 		}
+		if e.P.isModuleFunc(callee) && callee.Blocks != nil && callee.Signature.Recv() == nil && isUnsafePointer(callee.Signature.Results().At(0).Type()) {
+			// an allocation helper: what it returns, provided that does not depend on its caller's receiver
+			var found []Contract
+			rets, _ := liveReturns(e.P, callee)
+			for _, r := range rets {
+				found = append(found, e.newValue(callee, resolvedResults(r)[0], depth+1))
+			}
+			if len(found) > 0 {
+				first := found[0]
+				same := true
+				for _, f := range found[1:] {
+					if f.String() != first.String() {
+						same = false
+					}
+				}
+				if same && (first.Kind == CPtr || first.Kind == CBytes && first.Sym == "" || first.Kind == CNil) {
+					return first
+				}
+			}
+		}
 		return Contract{Kind: CUnknown, Why: "result of " + qualName(callee)}
 	}
 	return Contract{Kind: CUnknown, Why: "value " + v.String()}
@@ -868,6 +888,37 @@ func (e *contractEnv) allocArg(fn *ssa.Function, t ssa.Value) Contract {
 		return Contract{Kind: CPtr, T: T}
 	}
 	return Contract{Kind: CUnknown, Why: "Alloc with a type that is neither a package variable nor a receiver field"}
+}
+
+// reflectTypeStatic: the Go type a reflect.Type value stands for, when it is
+// reflect.TypeOf(x) / reflect.TypeFor[T]() directly or a package-level
+// variable initialised that way.
+func (e *contractEnv) reflectTypeStatic(v ssa.Value) types.Type {
+	if T := staticTypeOfReflectType(v); T != nil {
+		return T
+	}
+	if ld, ok := stripChange(v).(*ssa.UnOp); ok && ld.Op == token.MUL {
+		if g, ok := ld.X.(*ssa.Global); ok {
+			// assigned once, in an initialiser
+			n := 0
+			for _, fn := range e.P.ModuleFuncs() {
+				for _, b := range fn.Blocks {
+					for _, in := range b.Instrs {
+						if st, ok := in.(*ssa.Store); ok && st.Addr == ssa.Value(g) {
+							n++
+							if !isInitFunc(fn) {
+								return nil
+							}
+						}
+					}
+				}
+			}
+			if n == 1 {
+				return e.typeOfReflectGlobal(g)
+			}
+		}
+	}
+	return nil
 }
 
 // rtypeArgType: v is unpackEFace(reflect.TypeOf(x)).data; returns type of x.
